@@ -74,4 +74,38 @@ m1 1001 1.0
 m2 1001 1.0
 """
 
-CORPUS = [('A', A), ('B', B), ('C', C), ('D', D)]
+E = """corpus E: union of a convex operand and a zero-thickness operand between duplicate surfaces
+1 1 -1.0 (4 -5 -3) : (1 -2) imp:n=1
+2 2 -1.0 -3 #1 imp:n=1
+3 0 3 imp:n=0
+
+1 px 2
+2 px 2
+3 so 6
+4 py -1
+5 py 1
+
+m1 1001 1.0
+m2 1001 1.0
+"""
+F = """corpus F: a referenced cell and a bare half-space carry the same number
+1 0 -1 fill=1 imp:n=1
+3 0 -3 fill=1 (6 0 0) imp:n=1
+4 1 -1.0 1 3 -4 (2 : -7) imp:n=1
+5 0 4 imp:n=0
+2 1 -1.0 -5 6 u=1 imp:n=1
+6 2 -1.0 5 : -6 u=1 imp:n=1
+
+1 so 2
+2 pz 1.5
+3 s 6 0 0 2
+4 so 20
+5 px 0.5
+6 px -0.5
+7 pz -1.5
+
+m1 1001 1.0
+m2 1001 1.0
+"""
+
+CORPUS = [('A', A), ('B', B), ('C', C), ('D', D), ('E', E), ('F', F)]
